@@ -60,7 +60,9 @@ Definition patch_fields_cap (pre post : bool) (budget : nat) : bool * nat :=
 (* ---- programs ------------------------------------------------------------------------------ *)
 (* one PatchTreasures item: key, the post-patch value of "matches" when the record did not
    match before (or is created), and when it did *)
-Record item := { ik : N; ipf : bool; ipt : bool }.
+(* ipc: the post-patch value when the record is CREATED by this patch (ops applied to the
+   InitialMsgpackOnCreate seed; a create always counts as pre = not matching) *)
+Record item := { ik : N; ipf : bool; ipt : bool; ipc : bool }.
 
 Inductive wop :=
 | WDel (k : N)                       (* delete *)
@@ -124,8 +126,8 @@ Definition patch_item (create : bool) (it : item) (budget : nat) (l : list rec)
   match lookup (ik it) l with
   | None =>
       if create then
-        let '(ok, b') := patch_fields_cap false (ipf it) budget in
-        if ok then (l ++ [{| rk := ik it; rm := ipf it; rx := false; rd := false |}], b', 1%N)
+        let '(ok, b') := patch_fields_cap false (ipc it) budget in
+        if ok then (l ++ [{| rk := ik it; rm := ipc it; rx := false; rd := false |}], b', 1%N)
         else (l, b', 9%N)
       else (l, budget, 2%N)
   | Some r =>
@@ -231,6 +233,8 @@ Inductive mstep :=
 | MCount (t : nat)    (* release a not-yet-started PatchTreasures thread; it parks after counting *)
 | MSelect (t : nat)   (* release a not-yet-started PatchExpired thread; it parks after selection *)
 | MPatched (t : nat)  (* release it again; it parks before the re-index (all patches applied) *)
+| MOne (t : nat)      (* release a parked batch for exactly one per-record / per-key patch
+                         (swamp.patchExpired.afterPatch, gateway.patchTreasures.beforeKey) *)
 | MFinish (t : nat).  (* release thread t (parked or not started); it runs to completion *)
 
 Definition is_counted (p : pc) : bool :=
@@ -245,6 +249,14 @@ Definition mrun1 (c : cfg) (m : mstep) (s : state) : option state :=
   | MPatched t =>
       match nth_error (thr s) t with
       | Some lo => if is_patched (lpc lo) then Some s else until c is_patched t 1000 s
+      | None => None
+      end
+  | MOne t =>
+      match nth_error (thr s) t with
+      | Some lo => match lpc lo with
+                   | PTrun _ (_ :: _) _ | PErun (_ :: _) _ _ _ => step c t s
+                   | _ => None
+                   end
       | None => None
       end
   | MFinish t => finish c t 1000 s
